@@ -62,8 +62,24 @@ func combineContext(c *Ctx) {
 	}
 	// returns: primary unchanged, or the derived context of one of the two sites
 	rets := returnsOf(fn)
-	for _, r := range rets {
-		v := r.Results[0]
+	// (a return of a value joined from several arms - `if n != 0 { ctx = derived }; return ctx` - is judged arm by arm)
+	var tuples []retTuple
+	for _, r0 := range rets {
+		tps := c.returnTuples(r0)
+		mixed := false
+		for _, tp := range tps {
+			if tp.vals[0] == resultOf(main, 0) || tp.vals[0] == resultOf(early, 0) {
+				mixed = true
+			}
+		}
+		if len(tps) > 1 && !mixed {
+			// a join of spellings of the primary (nil replaced by Background): one return
+			tps = []retTuple{{site: r0, ret: r0, vals: r0.Results}}
+		}
+		tuples = append(tuples, tps...)
+	}
+	for _, tp := range tuples {
+		r, v := tp.site, tp.vals[0]
 		switch {
 		case v == resultOf(early, 0):
 			// cancelled before return
@@ -169,7 +185,7 @@ func combineContext(c *Ctx) {
 				if stripNotV(ifi.Cond).(*ssa.BinOp).Op == token.EQL {
 					nn = 1 - nn
 				}
-				if q.onlyViaEdge(r, ifi, nn) {
+				if tp.via(q, ifi, nn) {
 					why = "reached only through primary.Err() != nil"
 				}
 			}
@@ -209,7 +225,7 @@ func combineContext(c *Ctx) {
 							}
 						}
 					}
-					if counts && q.onlyViaEdge(r, ifi, zs) {
+					if counts && tp.via(q, ifi, zs) {
 						why = "reached only through (number of non-nil, live others) == 0"
 					}
 				}
